@@ -143,11 +143,19 @@ impl Op {
         }
         // A user defined macro?
         else if let Ok(macro_definition) = ctx.get_resource(&name) {
-            // search for whitespace-delimited "inv" in order to avoid matching
-            // tokens *containing* inv (INVariant, subINVolution, and a few other
-            // pathological cases)
+            // The modifiers (inv, omit_fwd, omit_inv) of the invocation belong to
+            // the macro step as a whole. Look them up among the tokenized parameters
+            // of the invocation, so they are recognized in any position (prefix,
+            // infix, suffix) and spelling (`inv`, `inv=true`), without matching
+            // tokens merely *containing* inv (INVariant, subINVolution, etc.)
             let def = &parameters.definition;
-            let inverted = def.contains(" inv ") || def.ends_with(" inv");
+            let modifiers = def.split_into_parameters();
+            let given = |key: &str| {
+                modifiers
+                    .get(key)
+                    .is_some_and(|v| v.is_empty() || v.to_lowercase() == "true")
+            };
+            let inverted = given("inv");
             #[cfg(geodesy_verif)]
             crate::verif::emit(
                 "resolve",
